@@ -141,4 +141,15 @@ def check_case(case):
             if have != want:
                 out.append(fail('%s.print.tostring' % tag, 'tostring() lists every entry, one per line, in order',
                                 want, have, text=ts, include_unary=unary))
+        # a later call on the same context is again the full classification, whatever the caller did to the earlier result
+        try:
+            rel.reverse()
+            del rel[:1]
+        except Exception:
+            pass
+        rel2 = ctx.relations(include_unary=unary) if unary else ctx.relations()
+        got2 = observed_entries(rel2)
+        if got2 != got and got == exp:
+            out.append(fail('%s.repeatable' % tag, 'relations() on the same context again contains one entry for each pair '
+                            '(after the caller edited the earlier result in place)', exp, got2, include_unary=unary))
     return out[:10]
